@@ -49,6 +49,7 @@ type input struct {
 	keep    []int
 	h       *synth.Hist        // conflict-free history (full), or nil
 	lin     []synth.LinearStep // linear history (full) when h == nil
+	light   bool               // large case: the sparse histories and final files are not rendered
 }
 
 var hibDir string
@@ -555,6 +556,21 @@ func runPipeline(in *input, repo *git.Repository, commits []*object.Commit) (obs
 		}
 		pmatrix = rows(res.PeopleMatrix)
 	}
+	if in.light {
+		ok := []Sx{
+			planSx(plan, idx),
+			T("global", rows(res.GlobalHistory)...),
+			T("fhist", fhist...),
+			T("dict", dict...),
+			T("phist", phist...),
+			T("owner", owner...),
+			T("pmatrix"),
+		}
+		if planProblem != "" {
+			ok = append(ok, T("planproblem", A(planProblem)))
+		}
+		return T("ok", ok...)
+	}
 	var sfh []Sx
 	{
 		m := leaves.VerifC01FileHist(b)
@@ -879,6 +895,26 @@ func replay(c *Config) {
 			in.hibmode = f.Args()[0].Atom
 		}
 		n := 0
+		if f, ok := cs.Field("dlinear"); ok {
+			emitLinScale(c, in, dlinearFromSx(f))
+			continue
+		}
+		if _, ok := cs.Field("scale"); ok {
+			// a scale / option case: the history is the (unrestricted) rhist, the commit times come with it
+			f, ok := cs.Field("rhist")
+			if !ok {
+				fail("scale replay line without rhist")
+			}
+			sh := &scaleHist{h: synth.HistFromSx(f)}
+			if sf, ok := cs.Field("secs"); ok {
+				sh.secs = ints(sf)
+			}
+			for len(sh.secs) < sh.h.N {
+				sh.secs = append(sh.secs, len(sh.secs)%86400)
+			}
+			emitScale(c, in, sh, fieldInt(cs, "model", 0) != 0)
+			continue
+		}
 		if f, ok := cs.Field("hist"); ok {
 			in.h = synth.HistFromSx(f)
 			n = in.h.N
@@ -919,6 +955,17 @@ func main() {
 		return
 	}
 	rng := c.Rng
+	if only := os.Getenv("C01_ONLY"); only != "" { // development aid: one family alone
+		switch only {
+		case "opt":
+			optFamily(c)
+		case "scale":
+			scaleFamily(c)
+		case "linscale":
+			linScaleFamily(c)
+		}
+		return
+	}
 	maxc := 12
 	if c.Thorough() {
 		maxc = 40
@@ -973,6 +1020,9 @@ func main() {
 		params(rng, in, false)
 		emit(c, in)
 	}
+	optFamily(c)
+	scaleFamily(c)
+	linScaleFamily(c)
 	for i := c.Count(480, 10000); i > 0; i-- {
 		lin := synth.GenLinear(rng, 10)
 		in := &input{kind: "lin", lin: lin, keep: allIdx(len(lin))}
